@@ -294,10 +294,12 @@ class PymbolicToASTMapper(CachedMapper):
     def _map_multi_children_op(self,
                                children: tuple[ExpressionT, ...],
                                op_type: ast.operator) -> ast.expr:
+        # left-nested, as the operators associate (and as the evaluator
+        # computes): no parentheses in the unparsed source, whatever the width
         rec_children = [self.rec(child) for child in children]
-        result = rec_children[-1]
-        for child in rec_children[-2::-1]:
-            result = ast.BinOp(child, op_type, result)
+        result = rec_children[0]
+        for child in rec_children[1:]:
+            result = ast.BinOp(result, op_type, child)
 
         return result
 
